@@ -2,7 +2,7 @@
    for all histories; and what the decision procedure accepts satisfies the Props. *)
 From Coq Require Import List ZArith Bool Lia.
 From Verif Require Import Lib.ListX C02.Model C03.Model C03.Spec C03.Proofs C03.Proofs_Runtime
-     C03.Proofs_Inv C03.Proofs_Flight C03.Proofs_Step.
+     C03.Proofs_Inv C03.Proofs_Flight C03.Proofs_Step C03.Proofs_Exact.
 Import ListNotations.
 Open Scope Z_scope.
 
@@ -158,22 +158,36 @@ Proof.
   destruct (admissibleb (chk_parent cfg) p q anc (limit_of cfg st)); reflexivity.
 Qed.
 
-Lemma check_dump_model cfg wf st :
-  INV cfg wf st -> check_dump wf st (mkObs 0 [] (dump st)) = 0
-                   /\ forall s l, check_dump wf st (mkObs s l (dump st)) = 0.
+Lemma force_model cfg st o : force cfg st o (o_status (snd (step cfg st o))) = fst (step cfg st o).
 Proof.
-  intro I.
-  assert (H : forall s l, check_dump wf st (mkObs s l (dump st)) = 0).
-  { intros s l. unfold check_dump. cbn [o_dump].
-    replace (map fst (dump st)) with (map q_id (quotas st))
-      by (unfold dump; rewrite map_map; reflexivity).
-    rewrite eq_ids_refl. cbn [negb].
-    rewrite (sync_dump _ (inv_nodup _ _ _ I)).
-    destruct wf; cbn [andb]; [|reflexivity].
-    match goal with |- (if negb ?c then _ else _) = 0 => assert (Hc : c = true); [|rewrite Hc; reflexivity] end.
-    apply forallb_forall. intros q Hq. destruct (q_taint q) eqn:Et; cbn [orb]; [reflexivity|].
-    apply used_le_maxb_spec. exact (inv_used _ _ _ I eq_refl q Hq Et). }
-  split; [apply H|exact H].
+  destruct o; try reflexivity. unfold force, step.
+  destruct (find_pod id (pods st)); reflexivity.
+Qed.
+
+Lemma usage_exact_model wf st q :
+  EXI wf st -> wf = true -> In q (quotas st) -> usage_exactb st q = true.
+Proof.
+  intros [_ E] W Hq. specialize (E W). unfold usage_exactb, vec_eqb.
+  apply andb_true_iff. split; apply all_dims_spec; intro d; rewrite vget_vmk; apply Z.eqb_eq.
+  - rewrite exp_used_expq. apply (E q Hq d).
+  - rewrite exp_npused_expq. apply (E q Hq d).
+Qed.
+
+Lemma check_dump_model cfg wf st :
+  INV cfg wf st -> EXI wf st -> forall s l, check_dump wf st (mkObs s l (dump st)) = 0.
+Proof.
+  intros I X s l. unfold check_dump. cbn [o_dump].
+  replace (map fst (dump st)) with (map q_id (quotas st))
+    by (unfold dump; rewrite map_map; reflexivity).
+  rewrite eq_ids_refl. cbn [negb].
+  rewrite (sync_dump _ (inv_nodup _ _ _ I)).
+  destruct wf; cbn [andb]; [|reflexivity].
+  assert (H6 : forallb (usage_exactb st) (quotas st) = true).
+  { apply forallb_forall. intros q Hq. apply (usage_exact_model true st q X eq_refl Hq). }
+  rewrite H6. cbn [negb].
+  match goal with |- (if negb ?c then _ else _) = 0 => assert (Hc : c = true); [|rewrite Hc; reflexivity] end.
+  apply forallb_forall. intros q Hq. destruct (q_taint q) eqn:Et; cbn [orb]; [reflexivity|].
+  apply used_le_maxb_spec. exact (inv_used _ _ _ I eq_refl q Hq Et).
 Qed.
 
 Lemma step_obs_shape cfg st o :
@@ -184,36 +198,40 @@ Proof.
 Qed.
 
 Lemma check_op_model cfg wf st sn o :
-  INV cfg wf st -> FL wf st sn ->
+  INV cfg wf st -> FL wf st sn -> EXI wf st ->
   check_op cfg (wf && op_okb st sn o) st o (snd (step cfg st o)) = 0.
 Proof.
-  intros I F. unfold check_op.
+  intros I F X. unfold check_op.
   assert (Hc : match o with
                | OAttempt id | OCheck id => check_attempt cfg st id (snd (step cfg st o))
                | _ => 0
                end = 0).
   { destruct o; try reflexivity; apply (check_attempt_model cfg wf); auto; [left|right]; reflexivity. }
-  rewrite Hc. cbn [Z.eqb negb].
+  rewrite Hc. cbn [Z.eqb negb]. rewrite force_model.
   destruct (step_obs_shape cfg st o) as (s & l & ->).
-  apply (check_dump_model cfg _ _ (INV_step cfg wf st sn o I F)).
+  apply (check_dump_model cfg _ _ (INV_step cfg wf st sn o I F) (EXI_step cfg wf st sn o I X)).
 Qed.
 
 (* ---------- all histories ---------- *)
 Theorem check_run cfg : forall ops wf st sn,
-  INV cfg wf st -> FL wf st sn -> check cfg wf st sn (dump st) ops (run cfg st ops) = 0.
+  INV cfg wf st -> FL wf st sn -> EXI wf st ->
+  check cfg wf st sn (dump st) ops (run cfg st ops) = 0.
 Proof.
-  induction ops as [|o t IH]; intros wf st sn I F; [reflexivity|].
+  induction ops as [|o t IH]; intros wf st sn I F X; [reflexivity|].
   cbn [run]. destruct (step cfg st o) as [st' ob] eqn:Es. cbn [check].
   rewrite (sync_state_dump cfg wf st I).
-  pose proof (check_op_model cfg wf st sn o I F) as Hc. rewrite Es in Hc. cbn [snd] in Hc.
-  rewrite Hc. cbn [Z.eqb negb]. rewrite Es. cbn [fst].
+  pose proof (check_op_model cfg wf st sn o I F X) as Hc. rewrite Es in Hc. cbn [snd] in Hc.
+  rewrite Hc. cbn [Z.eqb negb].
+  pose proof (force_model cfg st o) as Hfm. rewrite Es in Hfm. cbn [fst snd] in Hfm. rewrite Hfm.
   pose proof (step_dump cfg st o) as Hd. rewrite Es in Hd. cbn [fst snd] in Hd. rewrite Hd.
   apply IH.
   - pose proof (INV_step cfg wf st sn o I F) as I'. rewrite Es in I'. exact I'.
   - pose proof (FL_step cfg wf st sn o I F) as F'. rewrite Es in F'. exact F'.
+  - pose proof (EXI_step cfg wf st sn o I X) as X'. rewrite Es in X'. exact X'.
 Qed.
 
 Theorem prop_code_run cfg ops : prop_code cfg ops (run cfg init_state ops) = 0.
 Proof.
-  unfold prop_code. apply (check_run cfg ops true init_state None); [apply INV_init|apply FL_init].
+  unfold prop_code.
+  apply (check_run cfg ops true init_state None); [apply INV_init|apply FL_init|apply EXI_init].
 Qed.
